@@ -19,6 +19,7 @@ type vchan struct {
 	sendq []*sendWait
 	recvq []*task
 	timer *vtimer // non-nil for a timer's channel
+	sendx, recvx int // buffer-slot counters (race detection)
 }
 
 type sendWait struct {
@@ -113,6 +114,7 @@ func (i *interpreter) chanClose(ch *vchan) {
 		panic(i.runtimeError("close of closed channel"))
 	}
 	ch.closed = true
+	i.hbRelease(i.curTask, chanClose{ch})
 	if i.sched != nil {
 		i.sched.closed(ch)
 	}
